@@ -64,7 +64,11 @@ AfterRule(e) ==
        THEN "C14 UNTOUCHED: the output changed (content, length or existence) although the operation was refused"
   ELSE IF ref \in {"archive", "pin"} /\ e.new_files # <<>> THEN "C14 NOCREATE: a file was created although the archive is invalid or the header checksum does not match"
   ELSE IF ref = "none" /\ e.exit # 0 /\ ~VerifyFailsO1(mode) THEN "C14 RUN: the command failed although nothing calls for a refusal"
-  ELSE IF e.gone_files # <<>> THEN "C16 ONLYOUTPUT: a file that existed before the command is gone"
+  \* a stale file at the temp path is compress's temporary chunk file from the moment it is re-used: removed after success, untouched by a refused run
+  ELSE IF mode.cmd = "compress" /\ mode.stale_tmp # "none" /\ ref # "none" /\ (e.gone_files # <<>> \/ ~e.tmp_unchanged)
+       THEN "C14 UNTOUCHED: a refused compress removed or changed the stale temporary file"
+  ELSE IF e.gone_files # (IF mode.cmd = "compress" /\ mode.stale_tmp # "none" /\ ref = "none" THEN <<"out..tmp">> ELSE <<>>)
+       THEN "C16 ONLYOUTPUT: a file that existed before the command is gone (or the stale temporary chunk file was not removed)"
   ELSE IF mode.cmd = "clone" /\ \E i \in 1..Len(e.new_files) : e.new_files[i] # "out.bin" THEN "C16 ONLYOUTPUT: clone created a file other than the output"
   ELSE IF mode.cmd = "compress" /\ ref = "none" /\ e.new_files # (IF before.exists THEN <<>> ELSE <<"out.cba">>) THEN "C16 LEFT: a successful compress did not leave exactly one new file, the archive"
   ELSE IF mode.cmd = "compress" /\ ref # "none" /\ e.new_files # <<>> THEN "C16 LEFT: a refused compress left a new file behind"
